@@ -650,13 +650,14 @@ def _default_decide(a, b, rel):
     if d.is_const():
         q = d.as_fraction()
         return {"<": q < 0, "<=": q <= 0, ">": q > 0, ">=": q >= 0, "==": q == 0, "!=": q != 0}[rel]
-    if rel in ("==", "!="):
-        z = d.is_zero()
-        if alg.ctx().meta.get("eq_is_identity", True):
-            return z if rel == "==" else not z
+    if rel in ("==", "!=") and d.is_zero():
+        return rel == "=="
     sg = syntactic_sign(d)
     if sg is not None:
-        return {"<": sg < 0, "<=": sg < 0, ">": sg > 0, ">=": sg > 0}[rel]
+        return {"<": sg < 0, "<=": sg < 0, ">": sg > 0, ">=": sg > 0, "==": False, "!=": True}[rel]
+    if rel in ("==", "!=") and alg.ctx().meta.get("eq_is_identity", False):
+        # opt-in only (a harness that states "generic position" as an explicit, reported assumption)
+        return rel == "!="
     raise Undecided("comparison %s on symbolic reals outside a path exploration" % rel)
 
 
